@@ -36,6 +36,9 @@ SCRIPTS = {
     "servo_in_loop": (HEAD + "from Reduino.Actuators import Servo\nwhile True:\n    arm = Servo(9)\n    arm.write(90)\n", ["Servo"]),
     "servo_in_loop_lcd_top": (HEAD + "from Reduino.Actuators import Servo\nfrom Reduino.Displays import LCD\npanel = LCD(i2c_addr=39)\nwhile True:\n    arm = Servo(9)\n    arm.write(90)\n    panel.line(0, \"x\")\n", ["Servo", "LiquidCrystal_I2C"]),
     "tab_literal": (HEAD + "from Reduino.Communication import SerialMonitor\nmon = SerialMonitor(9600)\nmon.write(\"T:\t21C\")\nx = 'id\tvalue'\nmon.write(x)\n", []),
+    # saved by an editor that writes a byte-order mark: CPython runs such a file, so target() must read it as well
+    "bom": ("\ufeff" + HEAD + "from Reduino.Actuators import Servo\nsv = Servo(9)\nsv.write(45)\n", ["Servo"]),
+    "non_ascii": (HEAD + "from Reduino.Communication import SerialMonitor\nmon = SerialMonitor(9600)\nmon.write(\"caf\u00e9 \u2713\")  # gr\u00fc\u00dfe\n", []),
     "rejected": (HEAD + "from Reduino.Actuators import Led\nled = Led(13)\nwhile True:\n    break\n", None),
 }
 PAIRS = {
@@ -218,7 +221,7 @@ def monitor(case: dict, env: Env, result, exc) -> Optional[str]:
     # 3. no fault: artefacts
     if exc is not None:
         return f"unexpected {type(exc).__name__}: {exc}"
-    want_cpp = emit(parse(text))
+    want_cpp = emit(parse(text.lstrip("\ufeff")))  # (a byte-order mark belongs to the file encoding, not to the text)
     if result != want_cpp:
         return "return value is not the firmware source of the calling script"
     if env.project is None:
